@@ -206,3 +206,29 @@ async fn transfer_udp(socket: UdpSocket, current: ServerConfig<SslConfig>) {
     }
     .unwrap_or_else(|e| error!("[udp] transfer failed; error={}", e));
 }
+
+/// Verification hook: public re-exports of the private codec types (feature `verif`, off by default).
+#[cfg(feature = "verif")]
+#[allow(unused_imports)]
+pub mod verif {
+    pub use super::handshake::Proxy;
+    pub use super::handshake::verif_recognize_http as recognize_http;
+    pub mod shadowsocks_tcp {
+        pub use super::super::shadowsocks::tcp::ClientContext;
+        pub use super::super::shadowsocks::tcp::PayloadCodec;
+        pub use super::super::shadowsocks::tcp::new_payload_codec;
+    }
+    pub mod shadowsocks_udp {
+        pub use super::super::shadowsocks::udp::Client;
+        pub use super::super::shadowsocks::udp::DatagramPacketCodec;
+    }
+    pub mod trojan_tcp {
+        pub use super::super::trojan::tcp::ClientCodec;
+    }
+    pub mod trojan_udp {
+        pub use super::super::trojan::udp::ClientCodec;
+    }
+    pub mod vmess {
+        pub use super::super::vmess::ClientAEADCodec;
+    }
+}
